@@ -68,6 +68,15 @@ class _Pipe:
         self._writer = multiprocessing.connection.Connection(hw, readable=False)
         self._reader = None
 
+        # Hold the pipe that this side reads open from now on (like the one above,
+        # this `open` does not block). The system discards what is in a FIFO when its
+        # last descriptor is closed: without this, objects that the other side sends
+        # before it goes away are lost if this side has not got to its first `recv`
+        # yet, and that `recv` then waits forever for a writer to show up.
+        # The descriptor is given up once the first object has been received;
+        # see `_received`.
+        self._rkeeper = os.open(self._rpath, os.O_RDWR)
+
     def send_bytes(self, buf, offset=0, size=None):
         self._writer.send_bytes(buf, offset=offset, size=size)
 
@@ -76,22 +85,47 @@ class _Pipe:
 
     def _get_reader(self):
         if self._reader is None:
-            # Open for reading will block until the other end
+            # Open for reading will block until some process
             # has opened the same path for writing.
             # That's why we don't open this in `__init__`.
             # In contrast, open for writing does not block.
+            # (Before the first object has been received, `self._rkeeper` counts
+            # as such a writer, hence this returns at once; the `recv` that follows
+            # then waits for the other side's first object.)
             hr = os.open(self._rpath, os.O_RDONLY)
             self._reader = multiprocessing.connection.Connection(hr, writable=False)
         return self._reader
 
+    def _received(self):
+        # The first object has arrived: the reader is open and the other side has been
+        # there. From now on let the reader see the end of the stream when the other
+        # side closes its end, as usual.
+        if self._rkeeper is not None:
+            os.close(self._rkeeper)
+            self._rkeeper = None
+
+    def __del__(self):
+        if getattr(self, '_rkeeper', None) is not None:
+            try:
+                os.close(self._rkeeper)
+            except OSError:
+                pass
+            self._rkeeper = None
+
     def recv_bytes(self, maxlength=None):
-        return self._get_reader().recv_bytes(maxlength)
+        z = self._get_reader().recv_bytes(maxlength)
+        self._received()
+        return z
 
     def recv_bytes_into(self, buf, offset=0):
-        return self._get_reader().recv_bytes_into(buf, offset)
+        z = self._get_reader().recv_bytes_into(buf, offset)
+        self._received()
+        return z
 
     def recv(self):
-        return self._get_reader().recv()
+        z = self._get_reader().recv()
+        self._received()
+        return z
 
 
 class Server(_Pipe):
